@@ -155,8 +155,12 @@ contract(f"{LC}::retrieve_cache.decorator.wrapper", "retrieve_cache.claims-at-mo
          on_effect={"func": ["cid(ev.kwargs['cache']) == ident(CC.name, pl.identifier)",
                              "ident(CC.name, pl.identifier) not in self._identifiers"]},
          ensures=[R, "implies(not old(ident(CC.name, pl.identifier) in self._identifiers), len(calls('func')) == 0 and result is None)",
-                  "len(calls('func')) <= 1"],
-         note="the handler runs only with a cache obtained from pop (so each response claims at most one request)")
+                  "len(calls('func')) <= 1", "ident(CC.name, pl.identifier) not in self._identifiers", "len(calls('register_task')) == 0"],
+         # a handler that fails does not un-claim the request: it stays claimed (no second claim, no timeout for it later)
+         ensures_raise=[R, "ident(CC.name, pl.identifier) not in self._identifiers", "len(calls('register_task')) == 0",
+                        "len(calls('func')) == 1"],
+         note="the handler runs only with a cache obtained from pop (so each response claims at most one request); whatever the handler "
+              "does - return or raise - the request it was given is no longer outstanding")
 
 
 
